@@ -18,11 +18,13 @@
 //   locator-two-roles     one column sits in two (type, rank) slots
 //   locator-designation   getLocatorBy*, get*ByLocator, getLocators() disagree on (type, rank) <-> column
 //   value-views           cell getters disagree (getColumnBy*, getArray, getValueByColIdx, getValue, getArrayBySample, ...)
+//   selection-views       reading a column through a 0/1 selection (masked -> TEST, compressed) disagrees with the cells
 //   active-count          getSampleNumber(true) / isActive() / compressed column length disagree
 #pragma once
 #include "Db/Db.hpp"
 #include "Db/PtrGeos.hpp"
 #include "Enum/ELoc.hpp"
+#include <algorithm>
 #include <cstring>
 #include <map>
 #include <regex>
@@ -40,7 +42,9 @@ struct DbViolation
 
 struct DbInvOptions
 {
-  bool names       = true; // name -> column designation (each lookup compiles a regex in the library: costly)
+  bool names       = true; // name -> column designation (each lookup compiles O(ncol) regexes in the library: costly)
+  bool nameSubset  = false; // when true, only the columns listed in nameCols are checked for designation by name
+  std::vector<int> nameCols;
   bool values      = true; // cross-check of the cell getters, O(ncol * nech)
   bool activeCount = true;
   bool uidDefined  = true;
@@ -286,6 +290,7 @@ inline std::vector<DbViolation> collectDbViolations(const Db* db, const DbInvOpt
     for (int icol = 0; icol < ncol && !full(); icol++)
     {
       const std::string& nm = names[icol];
+      if (opt.nameSubset && std::find(opt.nameCols.begin(), opt.nameCols.end(), icol) == opt.nameCols.end()) continue;
       int other = -1, valid = 1;
       for (int j = 0; j < ncol && other < 0; j++)
       {
@@ -325,6 +330,34 @@ inline std::vector<DbViolation> collectDbViolations(const Db* db, const DbInvOpt
       if (!nh) nr = -1;
       if (ntv != ltype[icol] || nr != lrank[icol]) bad(rule, w + "getLocator(name) says " + locStr(ntv, nr) + " want " + locStr(ltype[icol], lrank[icol]));
       if (ltype[icol] >= 0 && !db->hasLocatorDefined(nm, ELoc::fromValue(ltype[icol]), lrank[icol])) bad(rule, w + "hasLocatorDefined(name, own locator) is false");
+    }
+  }
+
+  // ---- reading through the selection -------------------------------------------------------------------------
+  // Db.hpp (DB_2): useSel TRUE -> "the contents of the masked samples is set to TEST"; flagCompress TRUE -> "the returned
+  // array is compressed to the only non-masked samples". Only evaluated when the selection column is 0/1.
+  if (opt.values && db->getLocatorNumber(ELoc::SEL) > 0 && db->getColIdxByLocator(ELoc::SEL, 0) >= 0 &&
+      db->getColIdxByLocator(ELoc::SEL, 0) < ncol)
+  {
+    const std::vector<double>& sel = col[db->getColIdxByLocator(ELoc::SEL, 0)];
+    bool bin = true;
+    for (double x : sel) bin = bin && (x == 0. || x == 1.);
+    if (bin)
+    {
+      if (!sameVec(db->getSelections().getVector(), sel)) bad("selection-views", "getSelections() differs from the SEL column");
+      for (int icol = 0; icol < ncol; icol++)
+      {
+        std::vector<double> wantM, wantC;
+        for (int iech = 0; iech < nech; iech++)
+        {
+          wantM.push_back(sel[iech] == 1. ? col[icol][iech] : TEST);
+          if (sel[iech] == 1.) wantC.push_back(col[icol][iech]);
+        }
+        std::string w = "column " + std::to_string(icol) + " '" + names[icol] + "': ";
+        if (!sameVec(db->getColumnByColIdx(icol, true, false).getVector(), wantM)) bad("selection-views", w + "getColumnByColIdx(useSel, not compressed) differs");
+        if (!sameVec(db->getColumnByUID(uidOf[icol], true, true).getVector(), wantC)) bad("selection-views", w + "getColumnByUID(useSel, compressed) differs");
+        if (!sameVec(db->getArrayByUID(uidOf[icol], true).getVector(), wantC)) bad("selection-views", w + "getArrayByUID(useSel) differs");
+      }
     }
   }
 
